@@ -73,6 +73,21 @@ Usable(s, name, byPtr) ==
      /\ r.res \in {"field", "method"}
      /\ (r.res = "method" => (byPtr \/ ~r.addr))
 
+(* Map environments.  A map shape is [named, elem, method]: a map[string]E, E = "any" (interface{}) or "int", *)
+(* declared as a named type or not; a named type may have a method M() int (value receiver; it returns 100). *)
+(* The populated value has the key "A" (the integer 1) and, when E = "any", the key "G" (a function that     *)
+(* returns 7).  A key that is present is accepted as an identifier, resolves to its value and has the type   *)
+(* the checker derives from the sample value (E = "any") or E itself; a function-valued key and the method   *)
+(* are callable.  Nothing is claimed about absent names.                                                     *)
+MapShapes == {[named |-> nm, elem |-> e, method |-> m] : nm \in BOOLEAN, e \in {"any", "int"}, m \in {"none", "val"}}
+LegalMapShape(s) == s.method = "val" => s.named          \* only a named type has methods
+MapNames == {"A", "G", "M"}
+MapLookup(s, name) ==
+  CASE name = "A" -> [res |-> "key", ty |-> "int", val |-> 1, call |-> 0]
+    [] name = "G" /\ s.elem = "any" -> [res |-> "key", ty |-> "func", val |-> 0, call |-> 7]
+    [] name = "M" /\ s.method = "val" -> [res |-> "method", ty |-> "func", val |-> 0, call |-> 100]
+    [] OTHER -> [res |-> "none", ty |-> "", val |-> 0, call |-> 0]
+
 (* a legal Go type: no two members with the same field name at the top level *)
 MemberName(m) == IF m.k = "field" THEN m.name ELSE m.ty
 Legal(ms) == \A i, j \in 1..Len(ms) : i # j => MemberName(ms[i]) # MemberName(ms[j])
